@@ -56,8 +56,8 @@ def helper_case(util, n, v):
                 util.string_to_number_fixedlen(wrong, n)
                 return ("string_to_number_fixedlen:length-not-checked",
                         "rejection", "accepted %d bytes" % len(wrong))
-            except AssertionError:
-                pass
+            except Exception:
+                pass          # any refusal will do; the type is not specified
     except Exception as e:
         return ("helper-raises", v, "%s: %s" % (type(e).__name__, e))
     return None
